@@ -64,8 +64,10 @@ def slice_topk(ctx, rng, n_cases):
         # direct monitor: size and elitism
         viol = None
         bp = max(f for _, f in P) if mx else min(f for _, f in P)
-        bo = max(f for _, f in R) if mx else min(f for _, f in R)
-        if len(R) != n:
+        bo = (max(f for _, f in R) if mx else min(f for _, f in R)) if R else None
+        if len(T) != k:
+            viol = ("C12/topk-size", f"topk({k}) of {n} individuals returned {len(T)} (fitness {sorted(f for _, f in P)}, maximize={mx})")
+        elif len(R) != n:
             viol = ("C12/size", f"select_new_population returned {len(R)} individuals for population size {n}")
         elif (bo < bp) if mx else (bo > bp):
             viol = ("C12/elitism-lost", f"best parent {bp} but best of new population {bo} (k_elites={k}, maximize={mx})")
